@@ -505,6 +505,8 @@ class Harness(object):
         """An invalid request: must raise the documented error type and leave the deep snapshot unchanged."""
         _, kind, pi, x = op
         q, b = self.q, self.b
+        if before is None:
+            before = snapshot(b)
         pid = self._pid(pi)
         port = b.portfolios[pid] if pid else None
         cur = b.base_currency
@@ -1105,6 +1107,13 @@ def make_machine(mode, rec, part):
         @rule(p=st.integers(0, 3), a=st.integers(0, 4), qty=st.sampled_from([1, 10, 250, -3, -40]))
         def direct_fill(self, p, a, qty):
             self._do(['pfill', p, a, qty])
+
+        @precondition(lambda self: self.h is not None and self.h.pids)
+        @rule(kind=st.sampled_from(['early_mark', 'neg_mark', 'stale_mark', 'stale_mark', 'stale_update', 'over_pwd', 'p_over_wd']),
+              p=st.integers(0, 3), x=st.sampled_from([0.01, 1.0, 250.0]))
+        def refused_in_between(self, kind, p, x):
+            # requests that must be refused and leave no trace, in every mode (the full catalogue is C15's)
+            self._do(['bad', kind, p, x])
 
         @rule(a=st.integers(0, 4), qt=quote_st())
         def quote(self, a, qt):
